@@ -111,6 +111,35 @@ def self_pattern_case(foreign, implicit, pattern, current):
     return f"foreign section={foreign}, implicit self pattern={implicit}, {pattern}: {bad}" if bad else None
 
 
+SAME_LINE_CASES = [
+    # (pattern, current, flags, the line with two occurrences, patterns in config order)
+    ("MAJOR.MINOR.PATCH", "0.1.9", ["--patch"], 'ver="\x01" pep="\x02" tail', ['ver="{version}"', 'pep="{pep440_version}"']),
+    ("MAJOR.MINOR.PATCH", "0.1.9", ["--patch"], 'pep="\x02" ver="\x01" tail', ['ver="{version}"', 'pep="{pep440_version}"']),
+    ("MAJOR.MINOR.PATCH", "0.9.9", ["--minor"], 'ver="\x01" pep="\x02"', ['pep="{pep440_version}"', 'ver="{version}"']),
+    ("vMAJOR.MINOR.PATCH[-TAG]", "v1.2.3-rc", ["--tag", "final"], 'ver="\x01" pep="\x02" end', ['ver="{version}"', 'pep="{pep440_version}"']),
+    ("YYYY.BUILD[-TAG]", "2020.9998-beta", [], 'ver="\x01" pep="\x02" end', ['ver="{version}"', 'pep="{pep440_version}"']),
+    ("{semver}", "0.1.9", ["--patch"], 'ver="\x01" pep="\x02" tail', ['ver="{version}"', 'pep="{pep440_version}"']),
+]
+
+
+def same_line_case(i):
+    """Directed: two different patterns match on one line and the new version has a different length."""
+    from shadows.project import plain_scenario, check_scenario
+
+    pattern, current, flags, line, pats = SAME_LINE_CASES[i]
+    kinds = ["version" if "{version}" in p else "pep440" for p in pats]
+    sc = plain_scenario(pattern=pattern, current=current, flags=flags, files={"src/mod.py": ["# module", line, "last line"]}, occ={"src/mod.py": [(1, k) for k in kinds]}, file_patterns={"src/mod.py": pats}, nfiles=1)
+    r = check_scenario(0, sc=sc)
+    bad = {k: v for k, v in r.items() if k in ("C03", "C04", "_error")}
+    if not bad and r.get("_rc") != 0:
+        bad = {"C03": f"update failed (exit {r.get('_rc')}) on a consistent project"}
+    return f"{pattern} {current} {flags} line {line!r}: {bad}" if bad else None
+
+
+def replay_same_line(i):
+    return same_line_case(i) is None
+
+
 def replay_self_pattern(foreign, implicit, pattern, current):
     return self_pattern_case(foreign, implicit, pattern, current) is None
 
@@ -125,6 +154,28 @@ def run(tier="quick", seed=0):
             r = f"exception {type(e).__name__}: {e}"
         if r is not None:
             bad_sp.append((case, r))
+    bad_sl = []
+    for i in range(len(SAME_LINE_CASES)):
+        try:
+            r = same_line_case(i)
+        except Exception as e:  # noqa
+            r = f"exception {type(e).__name__}: {e}"
+        if r is not None:
+            bad_sl.append((i, r))
+    out.append(
+        dict(
+            name="C03.same_line.two_patterns_on_one_line_with_a_length_change_are_both_rewritten",
+            kind="B",
+            verdict="held" if not bad_sl else "refuted",
+            cases=len(SAME_LINE_CASES),
+            distinct=len(SAME_LINE_CASES),
+            bound=f"{len(SAME_LINE_CASES)} directed projects: {{version}} and {{pep440_version}} on one line in both orders, new version longer / shorter than the old one, v2 and legacy patterns; real CLI, fake git",
+            witness=[dict(case=i, problem=r) for i, r in bad_sl[:3]],
+            observed=bad_sl[0][1] if bad_sl else None,
+            sample=[list(SAME_LINE_CASES[0][:3])],
+            python_replay=(dict(module="checks.c03", function="replay_same_line", args=[bad_sl[0][0]]) if bad_sl else None),
+        )
+    )
     out.append(
         dict(
             name="C03.self_pattern.config_files_own_current_version_line_is_updated",
